@@ -35,7 +35,7 @@ RULE = (
 )
 ASSUMPTIONS = [
     "a corrupted command byte is not detectable by the protocol: such an envelope must parse to the corrupted command with the same payload",
-    "commands are 0..12 non-NUL bytes (a command with embedded or leading NUL bytes is outside the quantifier)",
+    "commands are 0..12 bytes not ENDING in NUL (trailing NULs are indistinguishable from the zero padding); leading / embedded NULs are part of the command",
     "messages without parse() (version, getheaders, getdata, getcfilters, getcfheaders, getcfcheckpt) are checked for layout only; messages without serialize() (headers, cfilter, cfheaders, cfcheckpt) are decoded from reference-built payloads",
     "truncated message payloads and non-canonical CompactSize encodings are only observed (the statement demands rejection only at the envelope level)",
     "in a version message the two ports are big-endian (network byte order) as in the protocol; all other integers little-endian",
@@ -283,7 +283,7 @@ def post_env_serialize(args, kwargs, pre, out):
     ctx = contracts.ctx()
     e = args[0]
     net = _net_of_magic(getattr(e, "magic", None))
-    if net is None or not _b(e.command) or not _b(e.payload) or len(e.command) > 12 or b"\x00" in e.command or len(e.payload) >= 2**32:
+    if net is None or not _b(e.command) or not _b(e.payload) or len(e.command) > 12 or e.command.endswith(b"\x00") or len(e.payload) >= 2**32:
         return NotImplemented
     cmd, payload = bytes(e.command), bytes(e.payload)
     exp = p2p.envelope(net, cmd, payload)
@@ -331,8 +331,8 @@ def post_env_parse(args, kwargs, pre, out):
         return None
     _, cmd, payload, consumed = st
     if b"\x00" in cmd:
-        ctx.count("observed:command-with-embedded-nul")
-        return NotImplemented
+        # zero padding is TRAILING: a NUL byte before the last non-NUL byte belongs to the command and round-trips
+        ctx.count("command:leading-or-embedded-nul")
     if out[0] == "exc":
         _viol(ctx, "envelope-rejects-valid", f"{net} {cmd!r} payload {len(payload)}: raised {out[1]!r}", case)
     else:
@@ -674,7 +674,12 @@ def wl_primitives(ctx, rng, idx, n):
 
 # ---- workload: envelopes -------------------------------------------------------------------------------------
 def rand_command(rng, ln):
-    return bytes(rng.choice(b"abcdefghijklmnopqrstuvwxyz0123456789") for _ in range(ln))
+    c = bytearray(rng.choice(b"abcdefghijklmnopqrstuvwxyz0123456789") for _ in range(ln))
+    if ln >= 2 and rng.random() < 0.1:
+        # NUL bytes in front of / inside the command (never last: trailing NULs are the padding)
+        for _ in range(rng.choice([1, 1, 2, ln - 1])):
+            c[rng.randrange(0, ln - 1)] = 0
+    return bytes(c)
 
 
 REAL_COMMANDS = [b"version", b"verack", b"ping", b"pong", b"getheaders", b"headers", b"getdata", b"getcfilters", b"cfilter", b"getcfheaders",
@@ -981,6 +986,32 @@ def run_shard(desc, ctx):
     _state["primitives"] = False
     wl_messages(ctx, ctx.rng("messages"), idx, n)
     wl_envelopes(ctx, ctx.rng("envelopes"), idx, n)
+    wl_default_nonce(ctx)
+
+
+def wl_default_nonce(ctx):
+    """Fault injection at the library's randomness source: the default version nonce is drawn with randint(lo, hi);
+    whatever value in [lo, hi] comes back - here both ends - the message has to serialise to its fixed layout."""
+    from buidl import network as nw
+
+    real = nw.randint
+    for which in ("lo", "hi"):
+        seen = []
+
+        def stub(lo, hi, which=which, seen=seen):
+            seen.append((lo, hi))
+            return lo if which == "lo" else hi
+
+        nw.randint = stub
+        try:
+            o = outcome(lambda: nw.VersionMessage().serialize())
+        finally:
+            nw.randint = real
+        ctx.monitor("version-default-nonce")
+        ctx.count("version:default-nonce-at-" + which)
+        if seen and o[0] == "exc":
+            _viol(ctx, "version-default-nonce-out-of-range", f"randint{seen[0]} returning its {which} bound makes VersionMessage().serialize() raise {o[1]}",
+                  {"op": "default-nonce", "which": which})
 
 
 # ---- replay -----------------------------------------------------------------------------------------------------
@@ -993,6 +1024,8 @@ def replay(case, ctx):
     p2p.selfcheck()
     install()
     op = case.get("op")
+    if op == "default-nonce":
+        wl_default_nonce(ctx)
     if op == "varint":
         o = outcome(h.encode_varint, case["n"])
         if o[0] == "ok":
